@@ -16,7 +16,7 @@ pub fn def() -> CheckDef {
         salt: 0xC08,
         level: "exploration",
         rule: "random networks x closed (plain or extended) formulae x 1..5 composed rewrites: bijective renaming of all state variables (also onto \
-               x/xx/xxx in a different order), extra blanks at token boundaries, redundant parentheses, long vs short hybrid spellings, \
+               x/xx/xxx in a different order), extra blanks at token boundaries, redundant parentheses, only the parentheses the grammar needs (chains of right-associative operators, unary prefixes, hybrid operators extending to the right), long vs short hybrid spellings, \
                alternative constant spellings. The raw and the sanitised result of the rewritten text must be the identical BDD as for the \
                canonical text. Non-trivial: the result is neither empty nor the unit set and the rewrite changed the text; distinct by \
                (network, text, rewritten text).",
@@ -34,6 +34,7 @@ pub fn def() -> CheckDef {
                 ("rewrite_parens", 100 * m),
                 ("rewrite_long_hybrids", 100 * m),
                 ("rewrite_constants", 100 * m),
+                ("rewrite_fewer_parens", 300 * m),
             ]
         },
         run,
@@ -65,7 +66,19 @@ fn run(rng: &mut Rng, idx: u64, tier: Tier) -> CaseOut {
         fopts.domain_pct = 30;
     }
     let net = crate::net::gen_net(rng, &nopts);
-    let f = gen_formula(rng, &fopts, &net.names);
+    let mut f = gen_formula(rng, &fopts, &net.names);
+    if rng.chance(1, 6) {
+        // an unparenthesised chain of two different binary temporal operators somewhere above the formula
+        let ops = [Bin::EU, Bin::AU, Bin::EW, Bin::AW];
+        let op1 = *rng.pick(&ops);
+        let op2 = *rng.pick(&ops);
+        let lit = |rng: &mut Rng| {
+            let p = F::Prop(rng.pick(&net.names).clone());
+            if rng.coin() { un(Un::Not, p) } else { p }
+        };
+        let (a, b) = (lit(rng), lit(rng));
+        f = if rng.coin() { bin(op1, a, bin(op2, b, f)) } else { bin(op1, a, bin(op2, f, b)) };
+    }
     let k = f.quant_depth() as u16 + rng.below(2) as u16;
     let world = World::from_net(net, rng, 10, 128);
     let sys = match build(&world, k) {
@@ -116,7 +129,22 @@ fn run(rng: &mut Rng, idx: u64, tier: Tier) -> CaseOut {
         kinds.push("rewrite_constants");
     }
     let text = f.canon();
-    let rewritten = render_styled(&g, &style, rng);
+    let mut rewritten = render_styled(&g, &style, rng);
+    if rng.chance(1, 3) {
+        // the opposite of redundant parentheses: only the parentheses the grammar needs
+        let (t, removed) = crate::syn::drop_parens(&g, extended, rng);
+        if removed > 0 {
+            rewritten = t;
+            kinds.retain(|k| *k == "rewrite_renaming" || *k == "rewrite_renaming_permutes_internal_names");
+            kinds.push("rewrite_fewer_parens");
+            let mut subs = Vec::new();
+            g.subformulas(&mut subs);
+            let chained = subs.iter().any(|s| matches!(s, F::Bin(op, _, r) if op.is_temporal() && matches!(**r, F::Bin(op2, ..) if op2.is_temporal() && op2 != *op)));
+            if chained && !rewritten.contains(") EU") && !rewritten.contains(") AU") {
+                kinds.push("rewrite_fewer_parens_mixed_temporal_chain");
+            }
+        }
+    }
     let mut out = CaseOut::new(format!("{}|{}|{}", world.net.to_aeon(), text, rewritten));
     for k in &kinds {
         out.count(k);
